@@ -7,15 +7,18 @@ HOLDS, VIOLATED, UNDECIDED = "HOLDS", "VIOLATED", "UNDECIDED"
 
 
 class Result:
-    __slots__ = ("rule", "key", "verdict", "fn", "where", "detail", "config", "reason")
+    __slots__ = ("rule", "key", "verdict", "fn", "where", "detail", "config", "reason", "label")
 
-    def __init__(self, rule, key, verdict, fn, where, detail, config, reason=None):
+    def __init__(self, rule, key, verdict, fn, where, detail, config, reason=None, label=None):
         self.rule, self.key, self.verdict, self.fn, self.where = rule, key, verdict, fn, where
         self.detail, self.config, self.reason = detail, config, reason
+        self.label = label  # stable name of a private anchor found by role (used in known-finding keys instead of its path)
 
     def as_json(self):
         d = {"rule": self.rule, "instance": self.key, "verdict": self.verdict, "fn": self.fn,
              "at": self.where, "config": self.config, "justification": self.detail}
+        if self.label:
+            d["anchor_role"] = self.label
         if self.reason:
             d["reason"] = self.reason
         return d
@@ -37,6 +40,11 @@ class Ctx:
         self.floors = []  # (rule, counted, minimum)
         self.notes = []
         self.has_async = False
+        self.roles = {}  # fn key -> role label of private anchors (renaming / splitting them must not change a finding's key)
+
+    def role(self, fn, label):
+        if fn is not None:
+            self.roles[fn.key] = label
 
     # -- recording ---------------------------------------------------------
     def _fnkey(self, fn):
@@ -48,7 +56,8 @@ class Ctx:
         return fn.key
 
     def _add(self, verdict, rule, fn, key, where, detail, reason=None):
-        self.results.append(Result(rule, key, verdict, self._fnkey(fn), where, detail, self.config, reason))
+        fk = self._fnkey(fn)
+        self.results.append(Result(rule, key, verdict, fk, where, detail, self.config, reason, self.roles.get(fk)))
 
     def holds(self, rule, fn, key, where=None, detail=""):
         self._add(HOLDS, rule, fn, key, where or (fn.loc() if hasattr(fn, "loc") else None), detail)
@@ -87,7 +96,7 @@ class Ctx:
 
 
 def violation_key(prop, r):
-    return "%s|%s|%s|%s" % (prop, r.rule, r.fn, r.key)
+    return "%s|%s|%s|%s" % (prop, r.rule, getattr(r, "label", None) or r.fn, r.key)
 
 
 def load_known(path=None):
